@@ -4,8 +4,10 @@ Correspondence (impl vs model): whole generated journals; (a) finalize of the jo
 present or elided, its number/decimals/commodity, bare 0, lot price, `@`/`@@`/`(@)`/`(@@)` and the printed cost,
 `= assigned`) against Model/Print.v `decide` on the finalized postings, (c) finalize of the re-read printed journal
 (rows of `reg` on the printed text) against the model's reread+finalize, (d) whether printing the re-read journal
-again gives the same decisions, (e) the postings `equity` emits per account against `equity_account`.
-Oracle (property text, implementation only, Fractions through verif_rational): rows of J (date, aux date, state, code,
+again gives the same decisions, (e) the postings `equity` emits per account against `equity_account`, (f) the number of blanks between the account
+name and the amount in the raw bytes of every printed posting line against `posting_blanks`.
+Oracle (property text, implementation only, Fractions through verif_rational): every printed posting line keeps the account name
+at least two blanks (or a tab) away from the amount; rows of J (date, aux date, state, code,
 payee, account, virtual, note, tags, exact amount, exact cost) equal the rows of `print J` re-read; print(print J) is
 byte-identical to print J; `bal` of the re-read `equity J` equals `bal J` per account and commodity."""
 import re
@@ -18,7 +20,7 @@ META = dict(
     level='proof',
     technique='Coq proof about a model of print_xact\'s per-posting decisions, of the reader on such lines and of posts_as_equity (print shows what was written; re-read of an exactly balanced transaction is accepted with the same exact amounts and costs; the two-posting elision happens only when both postings must balance and is then sound; print never fails; posting marks bring the state back; per-unit and total costs re-read to the same total; printing twice is stable; equity reproduces per-account per-commodity sums) + differential correspondence against ledger + implementation-only round-trip oracle',
     level_text='Theorems in coq/Properties/Properties_C06.v are stated for Model/Print.v: `decide` (post_has_simple_amount, the count == 2 && index == 2 elision, POST_CALCULATED / ITEM_GENERATED suppression, the @ / @@ choice with the printed per-unit cost |given_cost / amount|, state marks, bare 0 for a display-zero amount, read_back = amount_t::print then amount_t::parse at display precision with zero trimming), `reread` (what parse_post makes of such a line) followed by Model/Xact.v `finalize`, and `equity_account`. The model is tied to the code by tokenizing ledger\'s print output into the same decision records and by comparing finalize of the original and of the re-read printed text (exact rationals via the verif_rational hook).',
-    level_note='Trusted: Coq kernel; the MPFR display rounding model Base/Round.v (validated by C04); extraction/driver/harness for the correspondence. Layout (column widths, note placement, blank lines) is not modelled; it is covered by the byte-identity oracle print(print J) == print J only. Amount text <-> amount value is C04\'s subject (AmountText.v); here an amount is printed as the value the reader gets back (read_back). Not modelled: amount expressions `(expr)`, --generated, automated/periodic transactions in print, metadata set programmatically (print.cc:172-183), value-expression annotations, commodity styles beyond prefix/suffix, the iteration order of accounts in equity. Known findings still listed: F8 (zero amount printed as bare 0), F29 (re-read rejected after the commodity precision grew), F30 (equity rounds an inferred amount to display precision), F31 (all-zero transaction not printed). Repaired in /repo and now enforced as violations by the oracle: virtual-pair elision (bcb53b0, old F7), posting mark under a marked transaction (294def6, old F27), zero amount with a per-unit cost (c386080, old F28).',
+    level_note='Trusted: Coq kernel; the MPFR display rounding model Base/Round.v (validated by C04); extraction/driver/harness for the correspondence. Of the layout only the rule that separates account and amount is modelled (account column = max(36, longest printed name), amount right-justified in 12, gap topped up to two blanks; account_width / sep_blanks / posting_blanks, theorem print_separates_account_and_amount) and compared with the raw bytes of every printed posting line; note placement and blank lines are covered by the byte-identity oracle print(print J) == print J only. Amount text <-> amount value is C04\'s subject (AmountText.v); here an amount is printed as the value the reader gets back (read_back). Not modelled: amount expressions `(expr)`, --generated, automated/periodic transactions in print, metadata set programmatically (print.cc:172-183), value-expression annotations, commodity styles beyond prefix/suffix, the iteration order of accounts in equity. Known findings still listed: F8 (zero amount printed as bare 0), F29 (re-read rejected after the commodity precision grew), F30 (equity rounds an inferred amount to display precision), F31 (all-zero transaction not printed). Repaired in /repo and now enforced as violations by the oracle: virtual-pair elision (bcb53b0, old F7), posting mark under a marked transaction (294def6, old F27), zero amount with a per-unit cost (c386080, old F28).',
     design_ref='DESIGN.md section 7 C06',
     assumptions=['journals accepted by ledger (a journal with any error is outside the quantifier; erroneous transactions are dropped by the generator)',
                  'commodities $ EUR AAA BBB CCC without thousands marks or decimal comma (C04 covers styles)',
@@ -567,6 +569,13 @@ def measure_line(line, p):
     return (True, len(mark) + len(name), blanks, alen, separated)
 
 
+def differs_by_padding_only(t1, t2):
+    """the two print outputs differ only by blanks at the end of posting lines (before a note or the line end): finding F50"""
+    l1, l2 = t1.split('\n'), t2.split('\n')
+    unpad = lambda l: re.sub(r' +(  ;.*)?$', lambda m: m.group(1) or '', l)
+    return len(l1) == len(l2) and all(a == b or (a.startswith('    ') and unpad(a) == unpad(b)) for a, b in zip(l1, l2))
+
+
 def parse_bal(out):
     """bal --flat rows -> {(account, base commodity): Fraction} without zero entries (lots merged)"""
     tot = {}
@@ -846,10 +855,7 @@ def run_one(ctx, res, j, xs, text, path, out_reg, model, layout_cases, idem_case
                                                    case=dict(journal=text, printed=Ptext, xact=i), observed=show_kq(vb), required=show_kq(va)))
         # ---- oracle 2: print is idempotent, byte for byte
         if st3 != 0 or P2 != P:
-            l1, l2 = Ptext.split('\n'), P2.decode('utf-8', 'replace').split('\n')
-            unpad = lambda l: re.sub(r' +(  ;.*)?$', lambda m: m.group(1) or '', l)
-            only_padding = (st3 == 0 and len(l1) == len(l2) and
-                            all(a == b or (a.startswith('    ') and unpad(a) == unpad(b)) for a, b in zip(l1, l2)))
+            only_padding = st3 == 0 and differs_by_padding_only(Ptext, P2.decode('utf-8', 'replace'))
             res.violations.append(dict(key='print-not-idempotent' + (':padding-after-omitted-amount' if only_padding else ''), desc='print(print J) differs from print J',
                                        case=dict(journal=text, printed=Ptext), observed=P2.decode('utf-8', 'replace')[:2000], required=Ptext[:2000]))
     if nontrivial:
@@ -945,7 +951,7 @@ def run(ctx, n_override=None):
                 'different written precision, equal lots, first/second elided in the source, costs, implied rate, zero amounts), exactly '
                 'balanced multi-commodity transactions with @/@@/(@) costs and virtual postings, one elided amount, excess-precision per-unit '
                 'costs at the half-unit boundary, lot sales with {price} [date] (tag), balance assignments/assertions, `0 X @ price`; '
-                'decorated with states on transactions and postings (also a posting mark that differs from the mark of its transaction), codes, auxiliary dates, notes, tags, key: value metadata and unusual '
+                'account names of 30..45 characters placed around print's account column (column-3 .. column+0, the longest at the column) with amounts of 9..14 and more characters, so that every gap 0..3 between name and amount occurs; decorated with states on transactions and postings (also a posting mark that differs from the mark of its transaction), codes, auxiliary dates, notes, tags, key: value metadata and unusual '
                 'payee/account text; non-trivial = a transaction with at least one such feature in a journal whose printed text re-reads; '
                 'distinct by rendered transaction text')
     n = n_override or ctx.scale(130, 600)
@@ -1029,4 +1035,19 @@ def replay(ctx, obj):
         print(err2.decode('utf-8', 'replace')[:1000])
         if st != 0 or st2 != 0:
             res.violations.append(dict(key='replay', desc='print or its re-read fails', case=case, observed=(st, st2), required='0, 0'))
+        else:
+            st1, out1, err1 = lib.run_ledger(['-f', path, 'reg', '--empty', '--no-rounding', '--format', FMT] + NOW)
+            r1, r2 = parse_rows(out1), parse_rows(out2)
+            sig = lambda rows: [[(r['acct'], r['virtual'], r['cleared'], r['pending'], show_kq(r['amt']), show_kq(r['cost'])) for r in rows[i]]
+                                for i in sorted(rows)]
+            if sig(r1) != sig(r2):
+                diff = [(a, b) for a, b in zip(sum(sig(r1), []), sum(sig(r2), [])) if a != b][:4]
+                print('rows differ:', diff)
+                res.violations.append(dict(key='replay-rows', desc='the re-read rows differ from the original: %s' % diff, case=case,
+                                           observed=str(diff), required='equal rows'))
+            st3, P2, err3 = lib.run_ledger(['-f', ppath, 'print'] + NOW)
+            if P2 != P and not differs_by_padding_only(P.decode('utf-8', 'replace'), P2.decode('utf-8', 'replace')):
+                print('print(print J) != print J')
+                res.violations.append(dict(key='replay-idempotent', desc='print(print J) differs from print J', case=case,
+                                           observed=P2.decode('utf-8', 'replace')[:500], required=P.decode('utf-8', 'replace')[:500]))
     return res
